@@ -153,3 +153,10 @@ const MAX_RTT_ERROR: f32 = 0.2;
 /// extension and an explicit max ACK delay is not configured.
 // Keep in sync with `AckFrequencyConfig::max_ack_delay` documentation
 const MIN_AUTOMATIC_ACK_DELAY: Duration = Duration::from_millis(25);
+
+#[cfg(feature = "__verif-hooks")]
+#[allow(missing_docs, unreachable_pub, dead_code, unused_imports, unused_qualifications)]
+pub mod verif {
+    use super::*;
+    include!(concat!(env!("QUINN_VERIF_HOOKS"), "/proto/connection/ack_frequency.rs"));
+}
